@@ -23,6 +23,7 @@ static struct {
     int nA;
     wl_actor A[MAXA];
     long nodes;
+    volatile long holders, holders_done;
 } R;
 
 /* sequential model: used-rank bitmask + rank of each stream (-1: not live) */
@@ -155,6 +156,28 @@ static void check_own_ranks(wl_actor *a)
         }
 }
 
+/* a unit that keeps a stream busy while its owner is already inside ABT_xstream_free: the stream
+ * is alive until that call returns, so its rank is still taken */
+static void holder_fn(void *arg)
+{
+    int s = (int)(long)arg;
+    for (int k = 0; k < 6; k++) {
+        int r = -1;
+        ABT_OK(ABT_xstream_self_rank(&r));
+        for (int t = 0; t < R.nstr; t++)
+            if (t != s && R.live[t] && R.believed_rank[t] == r) {
+                int rr = -1;
+                ABT_OK(ABT_xstream_get_rank(R.xs[t], &rr));
+                /* (still live after the read: its owner had not started to free it) */
+                if (R.live[t] && rr == r)
+                    sim_fail("rank:duplicate", "stream %d, whose ABT_xstream_free is waiting for the unit it still runs, and live stream %d both have rank %d", s, t, r);
+            }
+        ABT_OK(ABT_thread_yield());
+    }
+    R.holders_done++;
+    sim_progress();
+}
+
 static void rank_body(wl_actor *a)
 {
     for (int i = 0; i < a->nops; i++) {
@@ -221,6 +244,12 @@ static void rank_body(wl_actor *a)
                 R.live[s] = 0;
                 if (arg & 1)
                     ABT_OK(ABT_xstream_join(R.xs[s]));
+                else if ((arg & 6) == 2) {
+                    ABT_pool mp;
+                    ABT_OK(ABT_xstream_get_main_pools(R.xs[s], 1, &mp));
+                    ABT_OK(ABT_thread_create(mp, holder_fn, (void *)(long)s, ABT_THREAD_ATTR_NULL, NULL));
+                    R.holders++;
+                }
                 ABT_OK(ABT_xstream_free(&R.xs[s]));
                 o->ok = 1;
                 o->ret = sim_steps();
@@ -283,6 +312,8 @@ static void run_c17_ranks(void)
     }
     wl_actors_spawn(&rt, R.A, n);
     wl_actors_join(&rt, R.A, n);
+    SIM_CHECK(R.holders == R.holders_done, "join:returned-with-work-left", "%ld units were running on streams when ABT_xstream_free was called for them; %ld finished", R.holders, R.holders_done);
+    sim_count("c17.streams_freed_while_running_a_unit", (uint64_t)R.holders);
     /* final count, then the history check */
     {
         wl_actor me = { .id = 99 };
